@@ -117,6 +117,11 @@ func c06Run(t *testing.T, run *Run, sc c06Scenario, rng *rand.Rand) {
 		if sc.Class == "never-healthy-new-service" {
 			f.Svc, f.Hosts = "s9", []string{"h9.example"}
 		}
+		if sc.Class == "never-healthy-one" && rng.IntN(2) == 0 {
+			// the operator lists a (healthy) target twice
+			f.Targets = append([]string{f.Targets[0]}, f.Targets...)
+			run.Count("failing_deploy_listing_a_target_twice", 1)
+		}
 		for i, tn := range f.Targets {
 			if sc.Class != "never-healthy-one" || i == len(f.Targets)-1 {
 				w.AddTarget(tn, failProbe)
@@ -174,7 +179,10 @@ func c06Run(t *testing.T, run *Run, sc c06Scenario, rng *rand.Rand) {
 		if sc.Class == "conflict-new" {
 			f.Svc = "s9"
 		}
-		if len(f.Targets) >= 2 && rng.IntN(2) == 0 {
+		if rng.IntN(3) == 0 {
+			f.Targets = append(f.Targets, f.Targets[0]) // a target listed twice
+			run.Count("failing_deploy_listing_a_target_twice", 1)
+		} else if len(f.Targets) >= 2 && rng.IntN(2) == 0 {
 			// the last target needs 1.5s for its first probe; the others answer their first probe at
 			// once and take 900ms for every later one: when the conflict is reported (1.5s) a probe of
 			// each of them is in flight
